@@ -1,10 +1,12 @@
 import TongoProofs.Lemmas.WalletMsg
 import TongoProofs.Lemmas.HighloadDict
 import TongoProofs.Lemmas.WalletExt
+import TongoProofs.Lemmas.WalletInt
 /-! Property C14 — wallet-built messages carry the requested transfers under a valid signature.
 
 Model: `TongoModel/WalletMsg.lean` (bodies per version, signature placement, external-message envelope, verifiers,
-decoders), `TongoModel/WalletSend.lean` (the message-count guard of RawSendV2). `H`, `sign`, `verify` are parameters;
+decoders), `TongoModel/WalletSend.lean` (the message-count guard of RawSendV2), `TongoModel/WalletInt.lean` (the
+outgoing internal messages of `wallet.Message` / `SimpleTransfer` / `ContractDeploy`, with their state init). `H`, `sign`, `verify` are parameters;
 `SigCorrect` is an explicit premise; "verifies against no other key / stops verifying when a bit changes" reduce, by
 `signed_digest_is_body` and `body_repr_injective`, to unforgeability of the signature scheme and collision-freedom of
 the hash on the two representations — named idealisations, exercised with real Ed25519 on every run.
@@ -398,6 +400,21 @@ theorem too_many_refused (loop : Nat → Nat → List Poll → Bool) (v : Versio
 
 /-! ### defects repaired, as negations about the code before the repair -/
 
+/-- Both sides of the boundary: a batch of EXACTLY the version's maximum (4 for v3/v4, 254 for v5 beta and highload,
+255 for v5r1) — and every smaller one — passes the guard and is sent (one message, to the wallet's own address); one
+more is refused with nothing sent. -/
+theorem limit_boundary (loop : Nat → Nat → List Poll → Bool) (v : Version) (hv : v.family ≠ .v1v2) (self : Address) (seqno : Nat)
+    (init : Bool) (n : Nat) (sc : Script) (hs : sc.sendErr = false) :
+    (n ≤ maxMessages v → (rawSendV2 loop v self seqno init n sc 0).outcome = .ok () ∧
+        (rawSendV2 loop v self seqno init n sc 0).sent =
+          some { destWc := toI8 self.workchain, destHash := self.hash, init := init, seqno := seqno })
+    ∧ (rawSendV2 loop v self seqno init (maxMessages v + 1) sc 0).sent = none
+    ∧ (maxMessages v = match v.family with | .v5r1 => 255 | .v5beta | .highload => 254 | _ => 4) := by
+  refine ⟨fun hn => ?_, by simp [rawSendV2], by cases v <;> rfl⟩
+  unfold rawSendV2
+  rw [if_neg (by omega)]
+  cases hf : v.family <;> simp_all
+
 /-- Before the repair a highload message with no transfers could not be decoded by the library's own decoder: the
 payload was `1 ^<empty cell>`, and the dictionary reader fails on the empty cell. -/
 theorem highload_empty_undecodable_before_fix :
@@ -410,6 +427,71 @@ not verify against its own key. -/
 theorem v5beta_unverifiable_before_fix (verify : List UInt8 → List UInt8 → List UInt8 → Bool) (pk : List UInt8) (c : Cell) :
     verifySignatureV0 H verify .v5beta c pk = .err "wallet version is not supported" := by
   simp [verifySignatureV0]
+
+/-! ### outgoing messages and the state init they carry -/
+
+/-- `ToInternal` + marshalling of a requested message (32-byte address, `uint64` amount) never overflows a cell and
+returns the written-out layout: the state init is attached, by reference, exactly when code AND data are given. -/
+theorem internal_message_layout (m : OutMsg) (hh : m.dest.hash.length = 32) (ha : m.amount < 2 ^ 64) :
+    internalMsg m = .ok (internalLayout m) ∧ (internalLayout m).refs.length = m.init.toList.length + m.body.toList.length := by
+  refine ⟨internalMsg_ok m hh ha, ?_⟩
+  simp [internalLayout, Cell.ordinary, Cell.refs]
+  cases m.body <;> simp
+
+/-- Requested vs. extracted: the message built for a request with code `c` and data `d` is read back (by the
+`tlb.Message` decoder) with a state init whose code is `c` and whose data is `d` — BOTH present —, with no library, the
+referenced cell being exactly `StateInit{code, data}`; bounce flag, amount and destination come back as requested. -/
+theorem carried_init_is_requested (m : OutMsg) (c d : Cell) (hc : m.code = some c) (hd : m.data = some d)
+    (hh : m.dest.hash.length = 32) (ha : m.amount < 2 ^ 64) (hdep : (internalLayout m).depthO ≤ maxDepth) :
+    ∃ x, decodeInternal (internalLayout m) = .ok x ∧ x.hasInit = true ∧ x.init.cell = some (stateInitCell c d) ∧
+      x.init.code = some c ∧ x.init.data = some d ∧ x.bounce = m.bounce ∧ x.amount = m.amount ∧
+      x.dest = some (bitsToInt (intToBits 8 (toI8 m.dest.workchain)), bytesToBits m.dest.hash) := by
+  have hi : m.init = some (stateInitCell c d) := by simp [OutMsg.init, hc, hd]
+  refine ⟨_, decodeInternal_layout m hh ha hdep, ?_⟩
+  simp [OutMsg.initRead, hi, hc, hd]
+
+/-- Without both code and data no state init is sent (and none is read back). -/
+theorem no_init_without_code_and_data (m : OutMsg) (h : m.code = none ∨ m.data = none)
+    (hh : m.dest.hash.length = 32) (ha : m.amount < 2 ^ 64) (hdep : (internalLayout m).depthO ≤ maxDepth) :
+    ∃ x, decodeInternal (internalLayout m) = .ok x ∧ x.hasInit = false ∧ x.init.code = none ∧ x.init.data = none := by
+  have hi : m.init = none := by
+    unfold OutMsg.init
+    rcases h with h | h
+    · simp [h]
+    · cases m.code <;> simp [h]
+  refine ⟨_, decodeInternal_layout m hh ha hdep, ?_⟩
+  simp [OutMsg.initRead, hi]
+
+/-- `ContractDeploy`: the message is addressed to the hash of the state init it CARRIES — the destination read back
+from the built message is the representation hash of the state-init cell read back from the same message, and that
+state init holds the requested code and data. -/
+theorem deploy_address_is_carried_init_hash (hlen : ∀ x, (H x).length = 32) (wc : Int) (c d : Cell) (body : Option Cell) (amount : Nat)
+    (ha : amount < 2 ^ 64) (m : OutMsg) (hm : contractDeploy H wc (some c) (some d) body amount = .ok m)
+    (hdep : (internalLayout m).depthO ≤ maxDepth) :
+    internalMsg m = .ok (internalLayout m) ∧ m.mode = 3 ∧
+    ∃ x si, decodeInternal (internalLayout m) = .ok x ∧ x.init.cell = some si ∧ x.init.code = some c ∧ x.init.data = some d ∧
+      si.hashO? H = .ok m.dest.hash ∧ x.dest = some (bitsToInt (intToBits 8 (toI8 wc)), bytesToBits m.dest.hash) := by
+  unfold contractDeploy at hm
+  simp only [bind] at hm
+  obtain ⟨h, hh, hm⟩ := Outcome.bind_eq_ok.mp hm
+  simp only [pure, Outcome.ok.injEq] at hm
+  subst hm
+  have hl : h.length = 32 := by
+    unfold Cell.hashO? at hh
+    split at hh
+    · simp only [Outcome.ok.injEq] at hh
+      rw [← hh]; simp [stateInitCell, Cell.ordinary, Cell.hashO, hlen]
+    · simp at hh
+  obtain ⟨x, hx, _, hcell, hcode, hdata, _, _, hdest⟩ :=
+    carried_init_is_requested ⟨true, ⟨wc, h⟩, amount, body, some c, some d, 3⟩ c d rfl rfl hl ha hdep
+  exact ⟨internalMsg_ok _ hl ha, rfl, x, _, hx, hcell, hcode, hdata, hh, hdest⟩
+
+/-- Only one of code / data: `ContractDeploy` refuses. -/
+theorem deploy_needs_code_and_data (wc : Int) (code data body : Option Cell) (amount : Nat) (h : code = none ∨ data = none) :
+    contractDeploy H wc code data body amount = .err "code and data must be set" := by
+  rcases h with h | h
+  · simp [contractDeploy, h]
+  · cases code <;> simp [contractDeploy, h]
 
 /-! ### the hypotheses are satisfiable -/
 
@@ -425,5 +507,10 @@ example : SigCorrect (fun sk m => (sk ++ m ++ List.replicate 64 0).take 64) (fun
 example : (Version.v4r2).family = .v4 ∧ ({ subWallet := 698983191 } : BodyIds).WF ∧
     ([⟨3, .ordinary [true] []⟩, ⟨128, .ordinary [] []⟩] : List RawMsg).length ≤ 4 := by
   refine ⟨rfl, by unfold BodyIds.WF; decide, by decide⟩
+
+/-- non-vacuity of `deploy_address_is_carried_init_hash`'s premises: a deploy with a toy 32-byte hash -/
+example : ∃ m, contractDeploy (fun _ => List.replicate 32 0) 0 (some (.ordinary [true] [])) (some (.ordinary [] [])) none 5 = .ok m ∧
+    (internalLayout m).depthO ≤ maxDepth ∧ m.dest.hash.length = 32 := by
+  refine ⟨_, rfl, by decide, by decide⟩
 
 end Tongo.C14
